@@ -143,7 +143,8 @@ func runC20(c *ShardCtx) {
 		switch {
 		case strings.HasPrefix(d.name, "defop"), strings.HasPrefix(d.name, "rulesep"), strings.HasPrefix(d.name, "initsep"), strings.HasPrefix(d.name, "lastsep"),
 			strings.Contains(d.name, "quotes"), strings.HasPrefix(d.name, "literal escape"), strings.HasPrefix(d.name, "class escape"), d.name == "all parens",
-			strings.HasPrefix(d.name, "code style"), strings.HasPrefix(d.name, "space \"  "), strings.HasPrefix(d.name, "space \"\\t"), strings.HasPrefix(d.name, "lead"), d.name == "no initializer":
+			strings.HasPrefix(d.name, "code style"), strings.HasPrefix(d.name, "space \"  "), strings.HasPrefix(d.name, "space \"\\t"), strings.HasPrefix(d.name, "lead"), d.name == "no initializer",
+			d.name == `opspace " "`: // blanks between an operator (label colon, prefix, suffix) and its operand
 			devs = append(devs, d)
 		}
 	}
